@@ -1,2 +1,3 @@
 import Spec.Tables
 import Spec.Slice
+import Spec.Semantics
